@@ -12,19 +12,38 @@ import values
 
 LEAN_MODULE = "Kio.Props.C11"
 THEOREMS = [
-    "Kio.C11.int_roundtrip", "Kio.C11.int_bytes_spec", "Kio.C11.int_out_of_domain",
-    "Kio.C11.natBE_length", "Kio.C11.beNat_natBE", "Kio.C11.natBE_beNat",
-    "Kio.C11.varint_roundtrip", "Kio.C11.varint_length_le", "Kio.C11.varint_minimal",
-    "Kio.C11.varint_prefix_underflow", "Kio.C11.varint_too_long",
-    "Kio.C11.zigzag_dec_enc", "Kio.C11.zigzag_enc_dec", "Kio.C11.zigzag_range32", "Kio.C11.zigzag_range64",
-    "Kio.C11.signed_varint_roundtrip", "Kio.C11.signed_varlong_roundtrip",
-    "Kio.C11.boolean_roundtrip", "Kio.C11.float64_roundtrip", "Kio.C11.uuid_roundtrip",
-    "Kio.C11.compact_string_roundtrip", "Kio.C11.legacy_string_roundtrip",
-    "Kio.C11.legacy_bytes_roundtrip", "Kio.C11.compact_bytes_roundtrip",
-    "Kio.C11.legacy_string_out_of_domain", "Kio.C11.legacy_bytes_out_of_domain",
-    "Kio.C11.error_code_roundtrip", "Kio.C11.timedelta_i32_roundtrip",
-    "Kio.C11.array_roundtrip_compact", "Kio.C11.array_roundtrip_legacy",
-    "Kio.C11.encVarint_eq_spec", "Kio.C11.intBE_eq_spec",
+    "Kio.C11.natBE_length",
+    "Kio.C11.beNat_natBE",
+    "Kio.C11.natBE_beNat",
+    "Kio.C11.int_roundtrip",
+    "Kio.C11.int_bytes_spec",
+    "Kio.C11.int_out_of_domain",
+    "Kio.C11.varint_roundtrip",
+    "Kio.C11.varint_length_le",
+    "Kio.C11.varint_minimal",
+    "Kio.C11.varint_prefix_underflow",
+    "Kio.C11.varint_too_long",
+    "Kio.C11.encVarint_eq_spec",
+    "Kio.C11.zigzag_dec_enc",
+    "Kio.C11.zigzag_enc_dec",
+    "Kio.C11.zigzag_range32",
+    "Kio.C11.zigzag_range64",
+    "Kio.C11.signed_varint_roundtrip",
+    "Kio.C11.signed_varlong_roundtrip",
+    "Kio.C11.boolean_roundtrip",
+    "Kio.C11.float64_roundtrip",
+    "Kio.C11.uuid_roundtrip",
+    "Kio.C11.error_code_roundtrip",
+    "Kio.C11.compact_string_roundtrip",
+    "Kio.C11.compact_bytes_roundtrip",
+    "Kio.C11.legacy_string_roundtrip",
+    "Kio.C11.legacy_bytes_roundtrip",
+    "Kio.C11.legacy_string_out_of_domain",
+    "Kio.C11.legacy_bytes_out_of_domain",
+    "Kio.C11.timedelta_i32_roundtrip",
+    "Kio.C11.timedelta_i64_roundtrip",
+    "Kio.C11.datetime_roundtrip",
+    "Kio.C11.array_roundtrip",
 ]
 
 POW2 = [2 ** k for k in range(0, 71)]
